@@ -64,6 +64,15 @@ def build_harness():
 
 
 # --------------------------------------------------------------------------- TLC
+UESC_RE = re.compile(r"\{U\+([0-9A-F]{4,6})\}")
+
+
+def unescape_text(txt):
+    """{U+XXXX} -> the character (the specification keeps its strings ASCII: TLC stores the strings of states
+    as bytes when it moves states to disk, which corrupts other characters in larger runs)."""
+    return UESC_RE.sub(lambda m: chr(int(m.group(1), 16)), txt)
+
+
 STATS_RE = re.compile(r"(\d+) states generated, (\d+) distinct states found")
 
 
@@ -116,19 +125,19 @@ def run_tlc(job, tier, seed, wd, extra_env=None):
     errors = []
     cases_path = os.path.join(wd, "cases.ndjson")
     prefix = '<<"CASE", '
-    with open(out_path, errors="replace") as f, open(cases_path, "w") as o:
+    with open(out_path, encoding="utf-8", errors="replace") as f, open(cases_path, "w", encoding="utf-8") as o:
         for line in f:
             if line.startswith(prefix):
                 s = line.rstrip("\n")[len(prefix):-2]
                 try:
-                    o.write(json.loads(s) + "\n")
+                    o.write(unescape_text(json.loads(s)) + "\n")
                     ncases += 1
                 except Exception as e:          # a CASE line broken by interleaved output
                     errors.append("unparsable CASE line: %s" % e)
                 continue
             if line.startswith('<<"ATOMS", '):
                 s = line.rstrip("\n")[len('<<"ATOMS", '):-2]
-                o.write(json.dumps({"t": "atoms", "table": json.loads(json.loads(s))}) + "\n")
+                o.write(json.dumps({"t": "atoms", "table": json.loads(unescape_text(json.loads(s)))}, ensure_ascii=False) + "\n")
                 ncases += 1
                 continue
             m = STATS_RE.search(line)
